@@ -439,7 +439,6 @@ class ActionTextGenWalker(Walker):
         if not v_var:
             self.buf(o_obj.Key_Lett, "::", o_tfr.Name)
         else:
-            self.buf('transform ')
             self.accept(v_var)
             self.buf('.', o_tfr.Name)
             
